@@ -242,6 +242,11 @@ func IsDomainName(s string) (labels int, ok bool) {
 			if off > lenmsg {
 				return labels, false
 			}
+			// The labels seen so far plus the terminating root label must
+			// fit in the 255 octets a name may occupy on the wire.
+			if off+1 > maxDomainNameWireOctets {
+				return labels, false
+			}
 
 			labels++
 			begin = i + 1
